@@ -1008,6 +1008,41 @@ pub fn m9(level: u8) -> Vec<Model> {
     out
 }
 
+/// M10: sparse variables created from value lists as a caller may pass them - unsorted, with
+/// repeated values (a repeated minimum, middle value, maximum), through the named and the unnamed
+/// constructor - alone and under one constraint.
+pub fn m10(_level: u8) -> Vec<Model> {
+    let lists: Vec<Vec<i32>> = vec![
+        vec![2, 5, 0, 2, 7],
+        vec![-4, 3, -4, 1, -1],
+        vec![3, 1, 2],
+        vec![7, 7, 0],
+        vec![0, 0],
+        vec![5, 4, 4, 3, 3, -1],
+        vec![1, 3, 5],
+        vec![6, -2, 6, 1, -2, 4],
+    ];
+    let v = View::id;
+    let mut out = vec![];
+    for list in &lists {
+        for named in [false, true] {
+            let vars = vec![VarDecl::sparse_raw(list, named), VarDecl::interval(0, 3)];
+            let cons: Vec<Vec<Con>> = vec![
+                vec![Con::BinNe(v(0), v(1))],
+                vec![Con::LinLe(vec![v(0), v(1)], 6)],
+                vec![Con::LinLe(vec![View::new(0, -1, 0), v(1)], -2)],
+                vec![Con::BinLe(v(1), v(0))],
+                vec![Con::PredClause(vec![Pred::new(0, PredKind::Ge, 4), Pred::new(1, PredKind::Le, 0)])],
+                vec![Con::Max(vec![v(0), v(1)], View::new(1, 2, 0))],
+            ];
+            for c in cons {
+                out.push(Model::new(vars.clone(), c));
+            }
+        }
+    }
+    out
+}
+
 /// Is the model non-trivial: neither every assignment is a solution nor none.
 pub fn nontrivial(model: &Model, num_solutions: usize) -> bool {
     num_solutions > 0 && (num_solutions as u64) < model.space_size()
